@@ -266,6 +266,15 @@ static void assert_inv_snap(lltd_iface_state *st, const struct snap *sn) {
 
 static unsigned be16(const uint8_t *p) { return ((unsigned)p[0] << 8) | p[1]; }
 
+/* C06's ACK travels to mapper_apparent, which the Emit class takes from an arbitrary pre-state; so every class that may
+ * write it is held to: afterwards it is what it was, or an address of the sender of this very frame (Ethernet or real
+ * source). One step from an arbitrary record = histories of any length. Not asserted while no mapper is registered. */
+static void assert_mapp_step(lltd_iface_state *st) {
+    if (st->mapper_known)
+        V_ASSERT(mac6_eq(st->mapper_apparent.a, in.st.mapp) || mac6_eq(st->mapper_apparent.a, in.frame + F_ESRC) || mac6_eq(st->mapper_apparent.a, in.frame + F_RSRC),
+                 "C06: the address a later ACK travels to (apparent mapper) is kept or taken from the sender of the frame just handled");
+}
+
 /* well-formedness common to every transmitted frame */
 static void check_tx_common(const vcfg *c, const uint8_t *f, size_t n) {
     V_ASSERT(n >= 32, "C02: transmitted frame carries a full LLTD base header");
